@@ -425,6 +425,11 @@ func identMain(args []string) int {
 		dist["serve/busy-rounds"]++
 	}
 
+	// ---- the pool pairs replies with requests
+	pc, pf := identPoolCases(rnd, 4+n, &id, desc, dist)
+	cases = append(cases, pc...)
+	findings = append(findings, pf...)
+
 	var sb strings.Builder
 	sb.WriteString("From Coq Require Import List NArith.\nFrom Verif Require Import Ident.Ident Ident.Cases.\nImport ListNotations.\nOpen Scope N_scope.\n")
 	sb.WriteString("Definition cases : list icase := [\n" + strings.Join(cases, ";\n") + "].\nDefinition M := Eval vm_compute in mismatches cases.\nPrint M.\n")
